@@ -151,6 +151,9 @@ func (r *ReconWs) ReconnectAuth(ctx context.Context, url, token string) {
 
 			if waitBeforeDial {
 				time.Sleep(boff.Duration())
+				if ctx.Err() != nil {
+					return // cancelled while waiting: make no further attempt
+				}
 			}
 
 			waitBeforeDial = true
